@@ -23,6 +23,9 @@ import (
 
 const VerifRoot = "/verif"
 
+// OutRoot is where evidence and replay artefacts go (scratch dir for mutant runs).
+var OutRoot = envOr("VERIF_OUT", VerifRoot)
+
 // Run is one invocation of a check.
 type Run struct {
 	ID     string
@@ -145,7 +148,7 @@ func (r *Run) Violation(key string, detail interface{}) {
 	}
 	b, _ := json.MarshalIndent(map[string]interface{}{"property": r.ID, "key": key, "tier": r.Tier, "detail": detail}, "", " ")
 	h := sha1.Sum([]byte(key))
-	dir := filepath.Join(VerifRoot, "replays", r.ID)
+	dir := filepath.Join(OutRoot, "replays", r.ID)
 	os.MkdirAll(dir, 0o755)
 	p := filepath.Join(dir, hex.EncodeToString(h[:6])+".json")
 	os.WriteFile(p, b, 0o644)
@@ -261,8 +264,8 @@ func (r *Run) Finish() {
 
 	if r.Replay == "" {
 		b, _ := json.MarshalIndent(ev, "", " ")
-		os.MkdirAll(filepath.Join(VerifRoot, "evidence"), 0o755)
-		if err := os.WriteFile(filepath.Join(VerifRoot, "evidence", r.ID+".json"), append(b, '\n'), 0o644); err != nil {
+		os.MkdirAll(filepath.Join(OutRoot, "evidence"), 0o755)
+		if err := os.WriteFile(filepath.Join(OutRoot, "evidence", r.ID+".json"), append(b, '\n'), 0o644); err != nil {
 			r.EngineError("cannot write evidence: %v", err)
 		}
 	}
